@@ -10,19 +10,20 @@ Open Scope Z_scope.
    queued while held, and is never released from a queue while held. *)
 Theorem c06_held_never_prepared : forall c s t st h q r s' p inp,
   step c s (EState t st h q r) = Ok s' -> lookup s t = Some (p, inp) ->
-  st = p_status p \/
+  st = p_status p \/ p_manual p = true \/
   (lifecycle (p_status p) st /\
    (p_status p = Waiting -> st = Preparing -> p_rel p = true \/ p_manual p = true) /\
    (st = Preparing -> p_held p = true -> p_manual p = true)).
 Proof. exact status_change_follows_lifecycle. Qed.
 
 Theorem c06_held_never_queued : forall c s t st h s' p inp r,
-  step c s (EState t st h true r) = Ok s' -> lookup s t = Some (p, inp) -> p_queued p = false -> h = false.
+  step c s (EState t st h true r) = Ok s' -> lookup s t = Some (p, inp) -> p_queued p = false ->
+  p_manual p = false -> h = false.
 Proof. exact held_not_queued. Qed.
 
 Theorem c06_held_never_released_from_queue : forall c s l s',
   step c s (ERelease l) = Ok s' ->
-  forall t, In t l -> exists p, find_task (pool s) t = Some p /\ p_held p = false.
+  forall t, In t l -> exists p, find_task (pool s) t = Some p /\ (p_held p = false \/ p_manual p = true).
 Proof. intros c s l s' H. exact (proj1 (release_respects_queue_limits c s l s' H)). Qed.
 
 (* The held flag changes only on request: set only for an instance in the hold
